@@ -296,6 +296,43 @@ def r4_complement(ctx):
                 f"key {name}", f"complement table defined for non-nucleotide alphabet {name}", where)
 
 
+def r4b_reverse_complement(ctx):
+    """the consumer of the complement tables: Sequence.reverse_complement is the letter-wise IUPAC complement, reversed, for
+    every 1- and 2-letter sequence (both cases) and for one sequence holding every letter, over every nucleotide alphabet -
+    a letter's complement does not depend on which other letters are present"""
+    from ..genekernel import gene_interp, mk_sequence
+    r, repo = ctx.r, ctx.repo
+    it = gene_interp(repo, max_steps=10 ** 9)
+    f = repo.fn("sequence.sequence:Sequence.reverse_complement")
+    alph = it.enum("Alphabet")
+    n = 0
+    bad = None
+    for name, m in alph.items():
+        letters = [c for c in m.value if c.upper() in IUPAC_COMPLEMENT]
+        if set(m.value.upper()) - NT_LETTERS:
+            continue
+        both = sorted({c.upper() for c in letters} | {c.lower() for c in letters if c.isalpha()})
+        seqs = list(both) + [a + b for a in both for b in both] + ["".join(both), "".join(reversed(both))]
+        for sq in seqs:
+            n += 1
+            try:
+                o = mk_sequence(it, sq, name)
+                k, v = "ok", it.call_func(f, [], {}, o)
+            except Raised as e:
+                k, v = "raise", e.exc_name
+            want = "".join((IUPAC_COMPLEMENT[c.upper()].lower() if c.islower() else IUPAC_COMPLEMENT[c.upper()]) for c in reversed(sq))
+            got = v.fields.get("sequence") if k == "ok" else v
+            if got != want and bad is None:
+                bad = (name, sq, got, want)
+    r.count(n)
+    r.floor("C15.R4b", "sequences reverse-complemented", n, 2000)
+    if bad:
+        r.violation("C15.R4b", f.qual, f"letter-wise complement ({bad[0]})", f"Sequence({bad[1]!r}, {bad[0]}).reverse_complement() = {bad[2]!r}; "
+                    f"the letter-wise IUPAC complement, reversed, is {bad[3]!r}", f)
+    else:
+        r.ok("C15.R4b", f.qual, "letter-wise IUPAC complement reversed, all 1-/2-letter sequences of every nucleotide alphabet", f, f"{n} sequences")
+
+
 def r5_frames(ctx):
     r, it = ctx.r, std_interp(ctx.repo)
     to_frame = ctx.repo.fn("gene.cds_frame:CDSPhase.to_frame")
@@ -517,6 +554,7 @@ RULES = [
     ("C15.R3b", r3b_codon_functions),
     ("C15.R3c", r3c_start_membership),
     ("C15.R4", r4_complement),
+    ("C15.R4b", r4b_reverse_complement),
     ("C15.R5", r5_frames),
     ("C15.R6", r6_strand),
     ("C15.R7", r7_biotype),
